@@ -99,8 +99,8 @@ def _work_gen(job):
                     "why": f"{type(err).__name__}: {err}"[:200]}
         texts, fail, why = _passes(w1)
     try:
-        src_items = None if nested or set(feats["bodies"]) & c03_gen.CANONICALISED \
-            else c03_item.itemise(src)
+        src_items = None if nested or feats["selcmp"] or \
+            set(feats["bodies"]) & c03_gen.CANONICALISED else c03_item.itemise(src)
     except c03_item.Unsupported as err:
         raise core.MachineryError(f"generated source {cid} not itemisable: {err}")
     return _case(cid, origin, src_items, texts, fail, why)
@@ -149,15 +149,30 @@ def _moved(detail):
     return detail.get("moved") or []
 
 
+def _only_imports(text):
+    '''local names brought in by "use m, only : ..." statements of a text'''
+    import re
+    names = set()
+    for m in re.finditer(r"^\s*use\s+\w+\s*,\s*only\s*:(.*)$", text, re.I | re.M):
+        for ent in m.group(1).split(","):
+            names.add(ent.split("=>")[0].strip().lower())
+    return names
+
+
 def m_public_list(case, clause, detail, finding):
-    '''the name list of a "public ::" / "private ::" access statement is written
-    in a different order by the next pass - nothing else changes'''
+    '''the names of a "public ::" access statement that are imported by a
+    "use ..., only :" list of the same module are written in a different order by
+    the next pass (they follow the sorted only-list after re-reading) - nothing
+    else in that statement changes.  Other access lists (e.g. a "private ::" list
+    of generated helper routines) are not this finding.'''
     if clause != "SameOrder" or detail.get("src_pass"):
         return False
     mv = _moved(detail)
-    return bool(mv) and all(it["k"] == "access-name" for it in mv) and \
-        all(l.lstrip().startswith(("public ::", "private ::"))
-            for l in detail.get("changed_lines", ["x"]))
+    imported = _only_imports(case.get("w1") or "")
+    return bool(mv) and all(it["k"] == "access-name" and it["s"].endswith("/public::")
+                            and it["s"].count("/") == 1 and it["t"] in imported
+                            for it in mv) and \
+        all(l.lstrip().startswith("public ::") for l in detail.get("changed_lines", ["x"]))
 
 
 def m_modvar_moved(case, clause, detail, finding):
